@@ -106,6 +106,15 @@ def _replay_spec(mod, prop, spec):
     return mod.replay(spec)
 
 
+def cmd_c18_cold(argv):
+    """(internal) one cold-start execution for C18: request as JSON on stdin, result as JSON on stdout"""
+    from xsim import eng_c18
+
+    req = json.loads(sys.stdin.read())
+    print(json.dumps(eng_c18.cold_child(req)))
+    return 0
+
+
 def cmd_worker_replay(argv):
     path = argv[0]
     body = core.read_replay(path)
@@ -544,6 +553,8 @@ def main():
         return cmd_worker(rest)
     if cmd == "worker-replay":
         return cmd_worker_replay(rest)
+    if cmd == "c18-cold":
+        return cmd_c18_cold(rest)
     if cmd == "replay":
         return cmd_replay(rest)
     if cmd == "selftest":
